@@ -1,8 +1,9 @@
 #!/bin/bash
-# usage: try_seed.sh <seed-id> <property> [tier]  -- applies the seeded patch to /repo, runs the check, reverts
+# usage: try_seed.sh <seed-id> <property> [tier]  -- applies the seeded patch to /repo, runs the check (time-limited), reverts
 id=$1; p=$2; tier=${3:-quick}
 cd /repo && git apply /verif/seeded/$id/patch.diff || { echo "patch does not apply"; exit 2; }
-cd /verif && bin/check $p $tier > /tmp/try_${id}_$p.out 2>&1; rc=$?
+cd /verif && timeout 1500 bin/check $p $tier > /tmp/try_${id}_$p.out 2>&1; rc=$?
+pkill -f "mocverif $p" 2>/dev/null
 git -C /repo checkout -- .
 tail -3 /tmp/try_${id}_$p.out
 echo "check exit=$rc"
